@@ -141,14 +141,14 @@ def gen(rng, tier, index):
     yield base
     points = []
     if tier == "thorough":
-        for k in range(1, n_iter + 1):
+        for k in range(1, max(2, n_iter)):
             for p in (0, 1, -1):
                 points.append((k, p))
         if len(points) > 900:
             points = rng.sample(points, 900)
     else:
         for _ in range(14):
-            points.append((rng.randint(1, max(1, n_iter)), rng.choice([0, 0, 1, 2, -1, -1])))
+            points.append((rng.randint(1, max(1, n_iter - 1)), rng.choice([0, 0, 1, 2, -1, -1])))
     for k, p in points:
         sc = copy.deepcopy(base)
         sc["close"] = {"iter": k, "pos": p}
